@@ -188,7 +188,7 @@ pub fn run_matrix(cfg: &RunCfg, _replay: Option<&[Step]>) -> RunOutput {
     let mut case = 0u32;
     let mut problems: Vec<(String, String)> = vec![];
     let mut sig = vec![];
-    for umask in [0o022u32, 0o000] {
+    for umask in [0o022u32, 0o000, 0o027, 0o007, 0o002, 0o077] {
         let old = unsafe { libc::umask(umask as libc::mode_t) };
         for file_state in ["missing", "empty", "plain", "encrypted_a", "keyring_encrypted"] {
             for ctor in ["new_keyring_has", "new_keyring_lacks", "with_key_a", "with_key_b", "unencrypted"] {
@@ -323,7 +323,7 @@ pub fn spec() -> CheckSpec {
     CheckSpec {
         id: "C13",
         level: "exploration",
-        rule: "(1) world runs on SQLCipher nodes (forks, rollbacks, restarts, group-data and image-key updates, id rotations) with planted canaries: message texts, group names/descriptions, relay URLs, and - known to the simulator - MLS group ids, Nostr group ids, exporter secrets of every epoch, image keys, member public keys, as raw bytes, lower/upper hex and base64; after every call a byte scan of every file in the database directory (main file, -journal, -wal, -shm, anything else) finds no canary and no plain SQLite header, and the main file has mode 0600; (2) the constructor x file-state matrix is exhausted under umask 022 and 000: {new with/without keyring entry, new_with_key right/wrong key, new_unencrypted} x {missing, empty, plain, encrypted with key A, keyring-managed}: an encrypted database never opens without its key or through the unencrypted constructor, the right key reopens it with the same data, a plain database is refused by the encrypting constructors, a keyring key is created once and reused, library-created files/directories are owner-only; non-trivial = scan performed in a run with a rollback; distinct = delivery signature / matrix outcome vector",
+        rule: "(1) world runs on SQLCipher nodes (forks, rollbacks, restarts, group-data and image-key updates, id rotations) with planted canaries: message texts, group names/descriptions, relay URLs, and - known to the simulator - MLS group ids, Nostr group ids, exporter secrets of every epoch, image keys, member public keys, as raw bytes, lower/upper hex and base64; after every call a byte scan of every file in the database directory (main file, -journal, -wal, -shm, anything else) finds no canary and no plain SQLite header, and the main file has mode 0600; (2) the constructor x file-state matrix is exhausted under umask 022, 000, 027, 007, 002 and 077: {new with/without keyring entry, new_with_key right/wrong key, new_unencrypted} x {missing, empty, plain, encrypted with key A, keyring-managed}: an encrypted database never opens without its key or through the unencrypted constructor, the right key reopens it with the same data, a plain database is refused by the encrypting constructors, a keyring key is created once and reused, library-created files/directories are owner-only; non-trivial = scan performed in a run with a rollback; distinct = delivery signature / matrix outcome vector",
         variants: vec![
             Variant { name: "world-scan", profile: wp, runs_quick: 60, runs_thorough: 3000, oracle: mk_world, guarded: false, configure_gen: Some(big_msgs), post: None, custom: None },
             Variant { name: "matrix", profile: Profile::default(), runs_quick: 2, runs_thorough: 4, oracle: mk_nop, guarded: false, configure_gen: None, post: None, custom: Some(run_matrix) },
